@@ -112,6 +112,7 @@ class TermAlg:
         self.depth = 0
         self.fstack: List[FuncInfo] = []
         self.signs: Dict[Any, int] = {}  # sign assumptions on symbols: ("sym", name) -> +1 / -1
+        self.ext_stubs: Dict[str, Any] = {}  # dotted name of a third-party callable -> fn(ta, pos, kw)
 
     # ------------------------------------------------------------ builders
     def term(self, keys: List[Key], prefix: str, const_name: Optional[str] = None) -> Rec:
@@ -405,7 +406,7 @@ class TermAlg:
                 return int(c)
             return ListV(b.items[bound(e.slice.lower):bound(e.slice.upper):bound(e.slice.step)])
         k = self.eval(e.slice, env)
-        if isinstance(b, DictV) and isinstance(k, (Key, Rat)):
+        if isinstance(b, DictV) and (isinstance(k, (Key, Rat)) or (isinstance(k, tuple) and k and k[0] == "str")):
             if k not in b.d:
                 raise Raised("KeyError")
             return b.d[k]
@@ -522,6 +523,10 @@ class TermAlg:
                 return l.scale(num(1) / r)
         if isinstance(l, ListV) and isinstance(r, ListV) and isinstance(op, ast.Add):
             return ListV(l.items + r.items)
+        if isinstance(l, ListV) and isinstance(r, Rat) and isinstance(op, (ast.Mult, ast.Div)) and all(isinstance(x, Rat) for x in l.items):
+            return ListV([self.arith(op, x, r, node) for x in l.items])  # array * scalar
+        if isinstance(r, ListV) and isinstance(l, Rat) and isinstance(op, ast.Mult) and all(isinstance(x, Rat) for x in r.items):
+            return ListV([self.arith(op, l, x, node) for x in r.items])
         if isinstance(l, Rec) and isinstance(r, Rec) and isinstance(op, ast.Add):
             return self.method(l, "__add__", [r])
         if isinstance(l, tuple) and l and l[0] == "str" and isinstance(r, tuple) and r and r[0] == "str" and isinstance(op, ast.Add):
@@ -563,6 +568,18 @@ class TermAlg:
         if isinstance(op, (ast.Is, ast.IsNot)):
             res = (l is r) or (isinstance(l, NoneT) and isinstance(r, NoneT))
             return res if isinstance(op, ast.Is) else not res
+        if isinstance(l, ListV) and isinstance(r, Rat) and isinstance(op, (ast.Lt, ast.LtE, ast.Gt, ast.GtE)):
+            out = []
+            for x in l.items:
+                if not isinstance(x, Rat):
+                    raise AnalysisError("comparison %s outside the kernel fragment" % norm(e))
+                d = x - r
+                c = d.as_const()
+                sg = ((c > 0) - (c < 0)) if c is not None else (sign_under(d, self.signs) if self.signs else None)
+                if sg is None:
+                    raise Undecidable("sign of %s is not determined (%s)" % (d.show(), norm(e)))
+                out.append({ast.Lt: sg < 0, ast.LtE: sg <= 0, ast.Gt: sg > 0, ast.GtE: sg >= 0}[type(op)])
+            return ListV(out)
         if isinstance(l, Rat) and isinstance(r, Rat):
             c = (l - r).as_const()
             if c is not None:
@@ -586,6 +603,28 @@ class TermAlg:
         if isinstance(a, tuple) and isinstance(b, tuple):
             return a == b
         return a is b
+
+    def linsolve(self, m, v) -> "ListV":
+        """numpy.linalg.solve on a square matrix of generic symbols (Gauss-Jordan; a singular matrix raises
+        LinAlgError, which is a ValueError)."""
+        if not (isinstance(m, ListV) and isinstance(v, ListV) and all(isinstance(r, ListV) for r in m.items)):
+            raise AnalysisError("numpy.linalg.solve on something that is not a matrix of numbers")
+        n = len(m.items)
+        if any(len(r.items) != n for r in m.items) or len(v.items) != n:
+            raise Raised("LinAlgError")
+        a = [[x for x in r.items] + [v.items[i]] for i, r in enumerate(m.items)]
+        for col in range(n):
+            piv = next((r for r in range(col, n) if not a[r][col].is_zero()), None)
+            if piv is None:
+                raise Raised("LinAlgError")
+            a[col], a[piv] = a[piv], a[col]
+            pv = a[col][col]
+            a[col] = [x / pv for x in a[col]]
+            for r in range(n):
+                if r != col and not a[r][col].is_zero():
+                    f = a[r][col]
+                    a[r] = [x - f * y for x, y in zip(a[r], a[col])]
+        return ListV([a[i][n] for i in range(n)])
 
     def struct_eq(self, a, b) -> bool:
         """Structural equality of symbolic values (what == means for terms: same keys, identical coefficients)."""
@@ -691,6 +730,14 @@ class TermAlg:
                     return self.call(fi, pos, kw)
                 return self.call(fi, pos[1:], kw, self_val=pos[0])
             if t == "extmod":
+                if f[1] in self.ext_stubs:
+                    return self.ext_stubs[f[1]](self, pos, kw)
+                if f[1] in ("numpy.array", "numpy.asarray") and pos and isinstance(pos[0], (ListV, TupV)):
+                    return ListV([ListV(list(x.items)) if isinstance(x, (ListV, TupV)) else x for x in pos[0].items])
+                if f[1] in ("numpy.any", "numpy.all") and pos and isinstance(pos[0], ListV) and all(isinstance(x, bool) for x in pos[0].items):
+                    return any(pos[0].items) if f[1].endswith("any") else all(pos[0].items)
+                if f[1] == "numpy.linalg.solve" and len(pos) == 2:
+                    return self.linsolve(pos[0], pos[1])
                 if f[1].endswith("sympy.symbols") and pos and isinstance(pos[0], tuple) and pos[0][0] == "str":
                     return LinV({Key(pos[0][1]): num(1)})
                 raise AnalysisError("external call %s outside the kernel fragment in %s" % (f[1], self.fstack[-1].key))
